@@ -475,6 +475,73 @@ def check_allocsz(ck, prog):
                             bound = 0xFFFFFFFF
                         elif fd_["n"] == fld and (fd_.get("ty") or "").replace("const ", "") in ("uint16_t", "uint8_t"):
                             bound = 0xFFFF
+                # lower bound: the block is a header plus `fld` elements and element 0 is written right after the
+                # allocation, so no store may leave the member at 0
+                writes_elem = c1 > 0 and any(
+                    xx.get("k") == "idx" and ex.strip(xx["b"]).get("k") == "mem"
+                    for bb_, ii_, ee_ in f.iter_elems() for (l_, r_, op_, n_) in ex.writes(ee_) for xx in ex.walk(l_))
+                if writes_elem:
+                    zero_site = None
+                    for g in prog.all_functions("liblzma"):
+                        if not g.blocks:
+                            continue
+                        for b2, i2, e2 in g.iter_elems():
+                            for (l_, r_, op_, n_) in ex.writes(e2):
+                                if ex.field_key(l_) != (x.get("rec"), fld) or r_ is None or op_ != "=":
+                                    continue
+                                sv = ex.strip(r_)
+                                if ex.const_val(sv) is not None:
+                                    if ex.const_val(sv) < 1:
+                                        zero_site = (g, n_)
+                                    continue
+                                if sv is None or sv.get("k") != "var":
+                                    zero_site = (g, n_)
+                                    continue
+                                v = sv["n"]
+                                # can the store be reached with v == 0?  cut: edges that imply v != 0, blocks that assign v
+                                cut_e, cut_b = set(), set()
+                                for tb in g.blocks.values():
+                                    if tb.term and "cond" in tb.term and len(tb.succs) == 2:
+                                        cc = ex.strip(tb.term["cond"])
+                                        if cc.get("k") == "bin" and ex.show(cc["l"]) == v and ex.const_val(cc["r"]) is not None:
+                                            k_, op2 = ex.const_val(cc["r"]), cc["op"]
+                                            # edge index 0 = condition true, 1 = false
+                                            if (op2 == "==" and k_ == 0) or (op2 == "<" and k_ == 1) or (op2 == "<=" and k_ == 0):
+                                                cut_e.add((tb.id, 1))
+                                            if (op2 == "!=" and k_ == 0) or (op2 == ">" and k_ == 0) or (op2 == ">=" and k_ == 1):
+                                                cut_e.add((tb.id, 0))
+                                        elif cc.get("k") == "var" and cc["n"] == v:
+                                            cut_e.add((tb.id, 0))
+                                for b3, i3, e3 in g.iter_elems():
+                                    for (l3, r3, op3, n3) in ex.writes(e3):
+                                        if ex.show(l3) == v and op3 == "=" and r3 is not None and (ex.const_val(r3) or 0) >= 1 \
+                                                and ex.deref(n3).get("k") != "decl":
+                                            cut_b.add(b3.id)
+                                seen, st, hit = set(), [g.entry], False
+                                while st:
+                                    xb = st.pop()
+                                    if xb in seen:
+                                        continue
+                                    seen.add(xb)
+                                    if xb == b2.id:
+                                        hit = True
+                                        break
+                                    if xb in cut_b:
+                                        # continue from this block with v >= 1: treat as discharged
+                                        continue
+                                    for idx_, y in enumerate(g.blocks[xb].succs):
+                                        if y is not None and (xb, idx_) not in cut_e:
+                                            st.append(y)
+                                if hit:
+                                    zero_site = (g, n_)
+                    n += 1
+                    ck.ob("C04-ALLOCSZ", "%s:%s:nonzero" % (f.name, fld), zero_site is None, common.where(f, c),
+                          "%s: every store to %s is at least 1 (element 0 of the allocated group is written right away)"
+                          % (f.name, fld) if zero_site is None else
+                          "%s() allocates a group with room for `%s` elements and then writes element 0, but %s() can store 0 "
+                          "into %s (line %s): the first append after that writes past the end of a %d-byte block (heap "
+                          "buffer overflow)" % (f.name, fld, zero_site[0].name, fld, ex.line(zero_site[1]), c1),
+                          key="ALLOCSZ:%s:%s:nonzero" % (f.name, fld))
                 n += 1
                 ck.saw_function(f)
                 ok = bound is not None and c1 + bound * c2 <= SIZE_MAX
